@@ -215,5 +215,10 @@ func cmdCheck(args []string) int {
 	genSecs := time.Since(t0).Seconds() - loadSecs
 	dischargeAll(obls, dir, cfg.timeoutMs, cfg.par, cfg.tier == "thorough")
 	var bounded []boundedResult
+	for _, sp := range w.cs.boundeds {
+		if (prop == "" || contains(sp.Props, prop)) && (cfg.only == "" || strings.Contains("bounded "+sp.Name, cfg.only)) {
+			bounded = append(bounded, runBounded(sp))
+		}
+	}
 	return report(w, cfg, units, obls, bounded, loadSecs, genSecs, time.Since(t0).Seconds())
 }
